@@ -101,7 +101,7 @@ CHECKS = {
             "W/W_H and full_W/full_W_H Hermitian pairs, stream counts vs shapes, closed-form nulling.  Leakage monotonicity is observed "
             "twice: repeated one-iteration solves ('fix' initialisation) and a sys.monitoring trace of every iteration inside one solve; "
             "the two routes must agree.",
-            "MMSE may exceed P by 1e-6 relative (its own root-finder acceptance); MMSE Lagrange RuntimeError is tallied as a decline; MaxSINR/MMSE only with noise > 0; leakage increase allowed 1e-9 relative + 1e-12 of the initial unfiltered interference; the svd initialisation only for Nr = Nt.",
+            "MMSE Lagrange-multiplier RuntimeError is tallied as a decline; MaxSINR/MMSE only with noise > 0; leakage increase allowed 1e-9 relative + 1e-12 of the initial unfiltered interference; the svd initialisation only for Nr = Nt.",
             "property-relation monitor after every setter + black-box and sys.monitoring trace observation of the iteration cost",
             "DESIGN.md §5 C10"),
     "C18": ("exploration",
